@@ -38,6 +38,8 @@ PROBES = [f"kv-split-top{a}-old{b}-new{c}" for a in (0, 1) for b in (0, 1) for c
     "value-is-a-node-hash",
     "value-is-a-node-body",
     "rolled-back-by-root-hash-assignment",
+    "rolled-back-by-root-node-assignment",
+    "root-node-assignment-refused-by-store",
 ]
 FAULTS = ["write-fail-applied", "write-fail-not-applied", "withhold-node", "crash-reopen", "store-lost-writes"]
 COMPONENTS = {
@@ -290,7 +292,11 @@ class World(BWorld):
                     self.snaps.pop(r, None)
             self.order = keep
             self.st.fault("store-lost-writes")
-        if cmd.get("assign") or (cmd.get("lost") and root in self.snaps):
+        if cmd.get("assign") == 2 and root in self.db.raw():
+            # ... or its public root_node attribute (the node body, which the trie files itself)
+            self.trie.root_node = fresh(self.db.raw()[root])
+            self.st.probe("rolled-back-by-root-node-assignment")
+        elif cmd.get("assign") or (cmd.get("lost") and root in self.snaps):
             # the live handle is rolled back by assigning its public root_hash attribute
             self.trie.root_hash = fresh(root)
             self.st.probe("rolled-back-by-root-hash-assignment")
@@ -301,6 +307,25 @@ class World(BWorld):
         self.changed = True
         self.st.probe("reopened-at-earlier-root")
         return "ok"
+
+    def op_badroot(self, cmd):
+        """The client assigns root_node a node the store does not hold yet (taken from
+        another store) and the store refuses to file it: like every call that raises, the
+        assignment must leave root and contents as they were."""
+        node = b"\x02" + unhx(cmd["v"]) + b"-elsewhere"  # a leaf node
+        root_before = self.trie.root_hash
+
+        def fn():
+            self.trie.root_node = node
+
+        status, res = self.call(cmd, fn)
+        if status == "ok":
+            # the directive did not fire (cannot happen with one write): undo
+            self.trie.root_hash = root_before
+            return "assigned"
+        self.check_unchanged(root_before, "root_node assignment")
+        self.st.probe("root-node-assignment-refused-by-store")
+        return "fault:" + type(res).__name__
 
     # -- after every event ---------------------------------------------------------
     def after(self, cmd, out):
@@ -384,6 +409,8 @@ def generate(rng):
                 cmds.append(m)
         else:
             cmds.append(m)
+        if p_fault and rng.random() < 0.04:
+            cmds.append({"op": "badroot", "v": hx(rng.choice(values) or b"v"), "fw": [1, rng.randrange(2), rng.choice("EKOB")]})
         for _ in range(rng.choice([0, 1, 2])):
             lk = g.lookup()
             if rng.random() < p_fault / 2:
